@@ -80,8 +80,10 @@ fn main() {
                 "C18" => std::process::exit(c18::drive(tier)),
                 prop if j["case"]["fuzz"] == true => {
                     // a finding of the coverage-guided leg: the recorded text through the same oracles
-                    let text = rvmon::fuzzleg::undebug(j["case"]["text_debug"].as_str().unwrap_or(""));
-                    match rvmon::fuzzleg::oracles(&text) {
+                    let recorded = j["case"]["text_debug"].as_str().unwrap_or("");
+                    let (eval, recorded) = match recorded.strip_prefix("EVAL ") { Some(r) => (true, r), None => (false, recorded) };
+                    let text = rvmon::fuzzleg::undebug(recorded);
+                    match if eval { rvmon::fuzzleg::oracles_eval(&text) } else { rvmon::fuzzleg::oracles(&text) } {
                         Some((p, class)) if p == prop => {
                             println!("text {text:?}: {class}");
                             println!("VIOLATION property={prop} replay={}", args[2]);
